@@ -53,12 +53,16 @@ class Injected(OSError):
     pass
 
 
-def run(world, ext, data, output, backup, script, body_exc_at=None, body_exc=None, final_op=None, fail_at=None, record=False):
+def run(world, ext, data, output, backup, script, body_exc_at=None, body_exc=None, final_op=None, fail_at=None, record=False, stale=False):
     """
     One mutate run under the seam.  Returns dict with: result ('ok' | ('exc', obj)), before/after
     snapshots, calls (numbered log), entry/exit observations.
     """
     files = {"in" + ext: data, "other.txt": b"unrelated\n"}
+    if stale:
+        # files left under the output / backup names by an earlier run
+        files["out" + ext] = b"#TITLE:stale output;\n"
+        files["bak" + ext] = b"#TITLE:stale backup;\n#GENRE:g;\n"
     world.reset(files)
     fs = world.fs
     inp = world.path("in" + ext)
@@ -285,20 +289,21 @@ def do_case(case):
     data = MU.file_bytes(ext, content_for(enc), case["with_chart"], key_only=case.get("key_only", False), unique=True, variant=case.get("variant"))
     script = case.get("script", [])
     kind = case["kind"]
+    st = case.get("stale", False)
     if kind == "body":
-        r = run(w, ext, data, case["output"], case["backup"], script, body_exc_at=case["at"], body_exc=BODY_EXCEPTIONS[case["exc"]])
+        r = run(w, ext, data, case["output"], case["backup"], script, body_exc_at=case["at"], body_exc=BODY_EXCEPTIONS[case["exc"]], stale=st)
         return fails_body(r, case["exc"]), r
     if kind == "serialization":
-        r = run(w, ext, data, case["output"], case["backup"], script, final_op=serialization_faults(ext)[case["fault"]])
+        r = run(w, ext, data, case["output"], case["backup"], script, final_op=serialization_faults(ext)[case["fault"]], stale=st)
         return fails_save_failure(r, "cannot be serialized") + fails_after_failure(w, ext, enc, case["with_chart"]), r
     if kind == "encoding":
-        r = run(w, ext, data, case["output"], case["backup"], script, final_op=encoding_faults(enc)[case["fault"]])
+        r = run(w, ext, data, case["output"], case["backup"], script, final_op=encoding_faults(enc)[case["fault"]], stale=st)
         return fails_save_failure(r, "cannot be encoded in the detected encoding") + fails_after_failure(w, ext, enc, case["with_chart"]), r
     if kind == "io":
-        r = run(w, ext, data, case["output"], case["backup"], script, fail_at=case["k"])
+        r = run(w, ext, data, case["output"], case["backup"], script, fail_at=case["k"], stale=st)
         return fails_io(r, case["k"]), r
     if kind == "faultfree":
-        r = run(w, ext, data, case["output"], case["backup"], script)
+        r = run(w, ext, data, case["output"], case["backup"], script, stale=st)
         fails = []
         if r["result"] != ("ok",):
             fails.append({"clause": "fault-free mutate raised", "expected": "saved", "observed": repr(r["result"][1])})
@@ -323,8 +328,10 @@ def explore_shard(acc, shard):
             if variant == "crlf" and fsname != "mem":
                 continue
             for output in (False, True):
-                for backup in (False, True):
-                    base = {"fs": fsname, "ext": ext, "enc": enc, "with_chart": with_chart, "key_only": with_chart, "output": output, "backup": backup, "variant": variant}
+                for backup, stale in ((False, False), (True, False), (True, True)) if not output else ((False, False), (False, True), (True, False), (True, True)):
+                    base = {"fs": fsname, "ext": ext, "enc": enc, "with_chart": with_chart, "key_only": with_chart, "output": output, "backup": backup, "variant": variant, "stale": stale}
+                    if stale:
+                        acc.outcome("output / backup name already taken by an older file")
                     # body faults
                     for script in scripts:
                         for at in range(len(script) + 1):
@@ -398,7 +405,7 @@ def explore(run_):
     acc = run_.acc
     run_.extra = {"fault_points_enumerated": int(acc.c["fault_points"]), "fault_free_runs": int(acc.c["fault_free_runs"])}
     run_.rule = (
-        f"for {{MemoryFS, native}} x {{.sm, .ssc}} x detected encoding {MU.ENCODINGS} x layout x output name x backup name: "
+        f"for {{MemoryFS, native}} x {{.sm, .ssc}} x detected encoding {MU.ENCODINGS} x layout x output name x backup name x (names free | already taken by older files): "
         f"body faults = {len(BODY_EXCEPTIONS)} exception classes at every position of every edit script of length <= {maxlen}; "
         "serialization faults = non-string value in the first/middle/last property, SSC chart without note data first/last; "
         "encoding faults = a character the detected encoding lacks in the first/middle/last parameter or an appended chart; "
@@ -411,6 +418,7 @@ def explore(run_):
     ]
     for what in ("body fault: cancel", "body fault: exception", "serialization fault", "encoding fault", "I/O fault at open", "I/O fault at write", "I/O fault at close"):
         core.require(acc.outcomes[what] > 0, f"never exercised: {what}")
+    core.require(acc.outcomes["output / backup name already taken by an older file"] > 0, "no pre-existing output / backup file")
     return run_.finish(
         states=acc.c["states"],
         transitions=acc.c["transitions"],
